@@ -42,11 +42,15 @@ def plan(tier, seed):
                           'heavy': [[1, 2], [2, 1], [1, 1, 2]]}[cc]
             for shp in shapes:
                 jobs.append(dict(base, kind='shape', shape=shp))
+                if has_sel:
+                    jobs.append(dict(base, kind='shape', shape=shp, sel=1))
             # ---- (b) equivariance under adjacent transpositions of the flattened cells
             stat = sp.name in D.STAT_CMDS or sp.name == 'CvtToFuzzy'
             n = 3 if (stat and cc != 'heavy') else 2
             if tier == 'thorough' and cc == 'cheap':
                 n = 4 if not stat else 3
+            if cc == 'mid' and sp.name in SORTING:
+                n = 3       # cells != inputs: a layer/cell mix-up cannot hide behind a square stack
             if tier == 'thorough' and cc == 'mid':
                 n = 3
             for t in range(n - 1):
